@@ -135,6 +135,61 @@ Theorem C04_opassign_is_call :
 Proof. exact @opassign_is_call. Qed.
 Print Assumptions C04_opassign_is_call.
 
+(* x f= rhs where rhs (any expression) READS the assigned place: the steps of Expr::OpAssign are
+   explicit in op_assign_store - old value read, rhs evaluated in the OLD store, only then the place
+   is nulled (drop_lhs), the function called, the result assigned.  For any store (plain variable,
+   a[i], ...): the place ends up holding f(old value, value of rhs in the old store). *)
+Theorem C04_opassign_store :
+  forall (B C D : Type) (brun : B -> list (val B C D) -> outcome (val B C D))
+         (crun : C -> list (val B C D) -> outcome (val B C D))
+         (diter : D -> outcome (list (val B C D))) n
+         (S : Type) (get : S -> outcome (val B C D)) (set : S -> val B C D -> outcome S)
+         vnull (s0 s1 s2 : S) f (rhs : S -> expr B C D) x0 b r,
+  get s0 = Ok x0 -> eval brun crun diter n (rhs s0) = Ok b -> set s0 vnull = Ok s1 ->
+  run brun crun diter n f [x0; b] = Ok r -> set s1 r = Ok s2 ->
+  op_assign_store brun crun diter n get set vnull s0 (fun _ => Fv f) rhs = (s2, Ok tt).
+Proof. exact @opassign_store_ok. Qed.
+Print Assumptions C04_opassign_store.
+
+(* plain variable: x f= rhs(x) leaves x equal to the value of the plain call f(x0, b0), b0 = rhs in the old store *)
+Theorem C04_opassign_reads_x :
+  forall (B C D : Type) (brun : B -> list (val B C D) -> outcome (val B C D))
+         (crun : C -> list (val B C D) -> outcome (val B C D))
+         (diter : D -> outcome (list (val B C D))) n vnull f (rhs : val B C D -> expr B C D) x0 b r,
+  eval brun crun diter n (rhs x0) = Ok b -> run brun crun diter n f [x0; b] = Ok r ->
+  op_assign_store brun crun diter n (@var_get B C D) (@var_set B C D) vnull x0 (fun _ => Fv f) rhs = (r, Ok tt) /\
+  eval brun crun diter n (form_call f x0 b) = Ok r.
+Proof. exact @opassign_reads_x. Qed.
+Print Assumptions C04_opassign_reads_x.
+
+(* failures: a failing right-hand side leaves the store untouched; a failing call leaves the place nulled *)
+Theorem C04_opassign_failures :
+  forall (B C D : Type) (brun : B -> list (val B C D) -> outcome (val B C D))
+         (crun : C -> list (val B C D) -> outcome (val B C D))
+         (diter : D -> outcome (list (val B C D))) n
+         (S : Type) (get : S -> outcome (val B C D)) (set : S -> val B C D -> outcome S)
+         vnull (s0 s1 : S) f (rhs : S -> expr B C D) x0,
+  get s0 = Ok x0 ->
+  (is_ok (eval brun crun diter n (rhs s0)) = false ->
+   fst (op_assign_store brun crun diter n get set vnull s0 (fun _ => Fv f) rhs) = s0 /\
+   is_ok (snd (op_assign_store brun crun diter n get set vnull s0 (fun _ => Fv f) rhs)) = false) /\
+  (forall b, eval brun crun diter n (rhs s0) = Ok b -> set s0 vnull = Ok s1 ->
+   is_ok (run brun crun diter n f [x0; b]) = false ->
+   fst (op_assign_store brun crun diter n get set vnull s0 (fun _ => Fv f) rhs) = s1 /\
+   is_ok (snd (op_assign_store brun crun diter n get set vnull s0 (fun _ => Fv f) rhs)) = false).
+Proof. exact @opassign_store_failures. Qed.
+Print Assumptions C04_opassign_failures.
+
+(* with an operator and right-hand side that do not read the place this is the op_assign of C04_opassign_is_call *)
+Theorem C04_opassign_store_const :
+  forall (B C D : Type) (brun : B -> list (val B C D) -> outcome (val B C D))
+         (crun : C -> list (val B C D) -> outcome (val B C D))
+         (diter : D -> outcome (list (val B C D))) n vnull x op rhs r,
+  op_assign brun crun diter n x op rhs = Ok r <->
+  op_assign_store brun crun diter n (@var_get B C D) (@var_set B C D) vnull x (fun _ => op) (fun _ => rhs) = (r, Ok tt).
+Proof. exact @opassign_store_const. Qed.
+Print Assumptions C04_opassign_store_const.
+
 (* f(a),  f! a,  f(...[a]),  a.f / a then f / a .> f,  f <. a,  f(_)(a),  f(..._)([a]),
    [a] apply f,  f of [a] *)
 Theorem C04_forms_agree_1 :
@@ -245,6 +300,11 @@ Example C04_nonvacuous :
   ev 2%nat (form_infix (FFlip f) a b) = Ok (VList [b; a]) /\
   ev 3%nat (form_apply (FKnown KApply) (VList [a; b]) (VFunc f)) = Ok (VList [a; b]) /\
   op_assign nv_brun nv_crun nv_diter 1 a (Fv f) (V b) = Ok (VList [a; b]) /\
+  op_assign_store nv_brun nv_crun nv_diter 1 (@var_get nat unit nat) (@var_set nat unit nat) (VData 0%nat) a
+    (fun _ => Fv f) (fun x => EList [ANorm (V x); ANorm (V x)]) = (VList [a; VList [a; a]], Ok tt) /\
+  op_assign_store nv_brun nv_crun nv_diter 1 (@var_get nat unit nat) (@var_set nat unit nat) (VData 0%nat) a
+    (fun _ => Fv f) (fun x => EList [ANorm (V x); ANorm (V x)]) <>
+  (VList [a; VList [VData 0%nat; VData 0%nat]], Ok tt) /\
   ev 0%nat (form_sect_l f a b) = OutOfFuel /\
   ev 2%nat (form_sect_mask f [(a, true); (b, false); (a, true)]) = Ok (VList [a; b; a]).
 Proof.
